@@ -5,7 +5,8 @@ Driver for C20.  Names are hex-encoded byte strings (`-` = empty name is written
   `fields <allow|except> <names> <doc keys> <emptyDoc 0|1> <isObject 0|1>`
       -> `verbatim` | `ok <positions (in the stored document) of the surviving fields, in output order>`
   `pipe <pipes ;-separated: F:<except 0|1>:<names +-separated> | O>` -> `none` | `ok <allowList 0|1> <names>`
-  `parse <tokens ,-separated: <u|q><s|n><hex>>` (the lexer tokens after a `|`; u/q = unquoted/quoted, s/n = white
+  `parse <tokens ,-separated: <u|q><s|n><l|x><hex>>` (the lexer tokens after a `|`; u/q = unquoted/quoted, l/x = first
+      rune is a unicode letter/digit or not, s/n = white
       space skipped before the token or not; text = UTF-8 bytes)
       -> `err` | `ok <allowList 0|1> <names> rest=<number of tokens left>`        parser.parsePipeFields
 -/
@@ -29,12 +30,13 @@ def bytesToChars (bs : List Nat) : Option (List Char) :=
 
 def charsToBytes (cs : List Char) : List Nat := (String.ofList cs).toUTF8.toList.map UInt8.toNat
 
-/-- token = `<u|q><s|n><hex of the UTF-8 text | e>`: unquoted / quoted, space skipped before it / not -/
+/-- token = `<u|q><s|n><l|x><hex of the UTF-8 text | e>`: unquoted / quoted, space skipped before it / not, first rune
+is a unicode letter or digit (Go's answer) / is not -/
 def parseTok (s : String) : Option Tok :=
   match s.toList with
-  | k :: sp :: r =>
-    if (k = 'u' ∨ k = 'q') ∧ (sp = 's' ∨ sp = 'n') then
-      (name? (String.ofList r)).bind fun bs => (bytesToChars bs).map fun cs => ⟨cs, k = 'q', sp = 's'⟩
+  | k :: sp :: lt :: r =>
+    if (k = 'u' ∨ k = 'q') ∧ (sp = 's' ∨ sp = 'n') ∧ (lt = 'l' ∨ lt = 'x') then
+      (name? (String.ofList r)).bind fun bs => (bytesToChars bs).map fun cs => ⟨cs, k = 'q', sp = 's', lt = 'l'⟩
     else none
   | _ => none
 
